@@ -169,8 +169,10 @@ _S = {}
 
 
 def _init():
+  import logging
   import warnings
   warnings.simplefilter("ignore")
+  logging.disable(logging.CRITICAL)     # pytype logs "No visible options" etc. to stderr
   prepare()
   common.load_pytype()
   from pytype import analyze, config, context, io, load_pytd
@@ -726,25 +728,43 @@ def eval_pairs(pool, programs):
   return pool.map(pair_task, list(enumerate(programs)), chunksize=1)
 
 
-def model_check(case, drv):
-  """model prediction vs the real downstream stub, per transport"""
-  dis = []
-  stats = {"reads": 0, "emitted": 0, "nonscalar": 0, "outside_fragment": 0}
-  for tr in TRANSPORTS:
-    dn = case["down"].get(tr)
-    if not dn or "exception" in dn:
+def model_check_all(cases, drv):
+  """model prediction vs the real downstream stub, per case and transport (two driver invocations in all)"""
+  jobs = []    # (case, transport, dn)
+  lines = []
+  for case in cases:
+    if "exception" in case or case["up_errors"]:
       continue
-    lines = ["U " + dn["unit"], "D"] + ["R " + r["read"] for r in case["reads"]] + \
-            ["V " + r["read"] for r in case["reads"]]
-    out = drv.batch(lines)
-    if not out[0].startswith("ok"):
+    for tr in TRANSPORTS:
+      dn = case["down"].get(tr)
+      if not dn or "exception" in dn:
+        continue
+      jobs.append((case, tr, dn))
+      lines += ["U " + dn["unit"], "D"] + ["R " + r["read"] for r in case["reads"]] + \
+               ["V " + r["read"] for r in case["reads"]]
+  out = drv.batch(lines) if lines else []
+  pos = 0
+  chunks = []
+  tlines = []
+  for case, tr, dn in jobs:
+    n = len(case["reads"])
+    o = out[pos:pos + 2 + 2 * n]
+    pos += 2 + 2 * n
+    chunks.append(o)
+    tlines += ["T " + (ro.split("|")[0].strip() if ro.strip() != "-" else "A") for ro in o[2:2 + n]]
+  tout = drv.batch(tlines) if tlines else []
+  tpos = 0
+  per_case = {}
+  stats = {"reads": 0, "emitted": 0, "nonscalar": 0, "outside_fragment": 0}
+  for (case, tr, dn), o in zip(jobs, chunks):
+    dis = per_case.setdefault(case["idx"], [])
+    n = len(case["reads"])
+    tl = tout[tpos:tpos + n]
+    tpos += n
+    if not o[0].startswith("ok"):
       dis.append({"stage": "K1", "transport": tr, "what": "driver rejected unit", "unit": dn["unit"][:300]})
       continue
-    derived = set(out[1].split(") (")) if out[1] else set()
-    n = len(case["reads"])
-    decls = [ro.split("|")[0].strip() for ro in out[2:2 + n]]
-    tl = drv.batch(["T " + (dsx if dsx != "-" else "A") for dsx in decls])
-    for r, ro, vo, tline in zip(case["reads"], out[2:2 + n], out[2 + n:2 + 2 * n], tl):
+    for r, ro, vo, tline in zip(case["reads"], o[2:2 + n], o[2 + n:2 + 2 * n], tl):
       stats["reads"] += 1
       real = dn["types"].get(r["name"])
       if ro.strip() == "-":
@@ -771,7 +791,12 @@ def model_check(case, drv):
       if len(vparts) == 3 and vparts[2] != "1" and flags[1] == "1":
         dis.append({"stage": "K1", "transport": tr, "what": "model: text and pickle re-exports differ",
                     "read": r["expr"], "text": vparts[0], "pickle": vparts[1]})
-  return dis, stats
+  return per_case, stats
+
+
+def model_check(case, drv):
+  per_case, stats = model_check_all([case], drv)
+  return per_case.get(case["idx"], []), stats
 
 
 def correspond(res, rng, tier):
@@ -788,16 +813,18 @@ def correspond(res, rng, tier):
     cases = eval_pairs(pool, [program_src(p) for p in programs])
   t2 = time.time()
   nreads = 0
-  stats = {"reads": 0, "emitted": 0, "nonscalar": 0, "outside_fragment": 0}
   distinct = set()
   oracle_bad = []
   up_err = 0
   kinds = {"const": 0, "call": 0, "cattr": 0, "iattr": 0, "mcall": 0, "cref": 0}
-  for case, prog in zip(cases, programs):
+  for i, (case, prog) in enumerate(zip(cases, programs)):
+    case["idx"] = i
     case["items"] = prog
+  per_case, stats = model_check_all(cases, drv)
+  for case, prog in zip(cases, programs):
     if "exception" in case:
       disagreements.append({"stage": "K1", "what": "upstream crash", "src": case["src"], "exception": case["exception"],
-                            "trace": case.get("trace")})
+                            "trace": case.get("trace"), "items": prog})
       continue
     if case["up_errors"]:
       up_err += 1
@@ -807,13 +834,10 @@ def correspond(res, rng, tier):
       kinds[r["read"][1:].split()[0]] += 1
       if r["decl"][0] in ("g", "t", "u"):
         distinct.add(repr(r["decl"]))
-    d, st = model_check(case, drv)
-    for k in stats:
-      stats[k] += st[k]
-    for x in d:
+    for x in per_case.get(case["idx"], []):
       x["src"] = case["src"]
-      x["bsrc_head"] = case["bsrc"][:200]
-    disagreements += d
+      x["items"] = prog
+      disagreements.append(x)
     fs = oracle_failures(case)
     if fs:
       oracle_bad.append({"stage": "K1-oracle", "what": "property oracle fails", "failures": fs[:4],
